@@ -75,15 +75,13 @@ Definition remove (z : zones) (x xm : Z) : zones :=
   let x1 := Z.max x (z_pos z) in let xm1 := Z.min xm (z_posm z) in
   if xm1 <=? x1 then z else mkzones (z_pos z) (z_posm z) (z_mlen z) (z_mwt z) (rem x1 xm1 (z_excl z)).
 
-(* Exclusion::weighted<XY> and <SD>; the SD variant carries factors 1/4: exact only when divisible (the correspondence
-   generator keeps them divisible and the driver skips the rest) *)
+(* Exclusion::weighted<XY> and <SD>.  The SD variant carries factors 1/4; the model keeps the weights of an SD zone in units of
+   one quarter (c, sm, smx are 4 times the C++ values), which is exact and changes no comparison of costs.  A zone is only ever
+   fed weights of its own kind (ShiftCollider uses axis i with range i); the correspondence skips mixed sequences. *)
 Definition weighted_xy (xmin xmax f a0 m xi c : Z) : excl := mkexcl xmin xmax (m * xi * xi + f * a0 * a0 + c) (m + f) (m * xi) false.
 Definition weighted_sd (xmin xmax f a0 m xi ai c : Z) (nega : bool) : excl :=
   let xia := if nega then xi - ai else xi + ai in
-  mkexcl xmin xmax ((m * xia * xia + 2 * f * a0 * a0) / 4 + c) ((m + 2 * f) / 4) ((m * xia) / 4) false.
-Definition sd_exact (f a0 m xi ai : Z) (nega : bool) : bool :=
-  let xia := if nega then xi - ai else xi + ai in
-  ((m * xia * xia + 2 * f * a0 * a0) mod 4 =? 0) && ((m + 2 * f) mod 4 =? 0) && ((m * xia) mod 4 =? 0).
+  mkexcl xmin xmax (m * xia * xia + 2 * f * a0 * a0 + 4 * c) (m + 2 * f) (m * xia) false.
 Definition weighted_axis (axis : Z) (xmin xmax f a0 m xi ai c : Z) (nega : bool) : excl :=
   if axis <? 2 then weighted_xy xmin xmax f a0 m xi c else weighted_sd xmin xmax f a0 m xi ai c nega.
 
